@@ -3,6 +3,7 @@ package chainh
 import (
 	"fmt"
 	"math/rand"
+	"os"
 	"sort"
 	"strings"
 	"sync"
@@ -29,6 +30,7 @@ type ModelCfg struct {
 	Catalogue bool // flawed blocks draw their rule from the catalogue, valid blocks sit on limits (C01)
 	Crash     bool // replay = crash-point enumeration of the path as a workload (C04)
 	Nested    bool // also crash every recovery
+	Prune     bool // crash workloads run on a pruned node (tiny block files, preamble blocks to prune)
 }
 
 func b2s(b bool) string {
@@ -344,7 +346,10 @@ func RunModel(ctx *vrun.Ctx, prop string, m ModelCfg, timeout time.Duration) err
 				h = h*131 + int64(c)
 			}
 			e.seed = ctx.Seed*1000003 + h
-			if m.Catalogue {
+			if m.Prune {
+				e.f = NewFactory(sc, NetOpts{Maturity: 1, BIP34: false}, e.seed)
+				e.f.Preamble(14)
+			} else if m.Catalogue {
 				e.f = NewFactory(sc, NetOpts{Maturity: 2, BIP34: false}, e.seed)
 				e.f.Catalogue = true
 				e.f.Preamble(5)
@@ -366,6 +371,9 @@ func RunModel(ctx *vrun.Ctx, prop string, m ModelCfg, timeout time.Duration) err
 	for i := range paths {
 		cacheSel[i] = rng.Intn(len(caches))
 	}
+	if only := os.Getenv("VERIF_ONLY"); only != "" && only != m.Name { // development aid
+		return nil
+	}
 	var firstErr error
 	var emu sync.Mutex
 	var coll *traceCollector
@@ -381,7 +389,11 @@ func RunModel(ctx *vrun.Ctx, prop string, m ModelCfg, timeout time.Duration) err
 		f, fseed := getF(sc)
 		var err error
 		if m.Crash {
-			err = crashWorkload(ctx, f, p, caches[cacheSel[i]], m.Nested, coll)
+			if m.Prune {
+				err = crashWorkload(ctx, f, p, caches[cacheSel[i]], m.Nested, coll, 2048, 700)
+			} else {
+				err = crashWorkload(ctx, f, p, caches[cacheSel[i]], m.Nested, coll, 0, 0)
+			}
 		} else {
 			err = replayPath(ctx, prop, f, p, caches[cacheSel[i]], fseed, nil)
 			ctx.AddTraces(1)
